@@ -168,6 +168,66 @@ func checkC14(P *Program, r *Result, tier string) {
 		r.add("GLOBALS", rel, "var", "package-level variable is "+class, P.pos(g.Pos()), ok, detail)
 	}
 	r.Extra["global_classes"] = classes
+	// objects that package-level variables point to are shared by every user of the package: their type's
+	// fields are stored only into objects the storing function has just made
+	shared := map[*types.Named]*ssa.Global{}
+	for _, g := range globals {
+		if pt, ok := g.Type().(*types.Pointer); ok { // g's type is *(declared type)
+			if pp, ok := pt.Elem().Underlying().(*types.Pointer); ok {
+				if n, ok := pp.Elem().(*types.Named); ok && !isSyncPool(n) {
+					if _, isStruct := n.Underlying().(*types.Struct); isStruct && n.Obj().Pkg() != nil && strings.HasPrefix(n.Obj().Pkg().Path(), modPath) {
+						if shared[n] == nil {
+							shared[n] = g
+						}
+					}
+				}
+			}
+		}
+	}
+	nShared := 0
+	for _, fn := range funcs {
+		if isInitFunc(fn) {
+			continue
+		}
+		for _, b := range fn.Blocks {
+			for _, in := range b.Instrs {
+				st, ok := in.(*ssa.Store)
+				if !ok {
+					continue
+				}
+				fa, ok := st.Addr.(*ssa.FieldAddr)
+				if !ok {
+					continue
+				}
+				// the object the field lives in, through embedded structs
+				var n *types.Named
+				base := fa.X
+				for {
+					if pt, ok := base.Type().Underlying().(*types.Pointer); ok {
+						if nn, ok := pt.Elem().(*types.Named); ok && shared[nn] != nil {
+							n = nn
+							break
+						}
+					}
+					inner, ok := base.(*ssa.FieldAddr)
+					if !ok {
+						break
+					}
+					base = inner.X
+				}
+				if n == nil {
+					continue
+				}
+				nShared++
+				fresh, bad := onlyFresh(rootsOf(base))
+				if _, isAlloc := base.(*ssa.Alloc); isAlloc {
+					fresh = true
+				}
+				r.add("GLOBALS", shortName(fn), "shared", "a field of "+n.Obj().Name()+" (instances of which are package-level singletons such as "+shared[n].Name()+") is set only in an object made by the same function", P.pos(instrPos(st)), fresh, bad)
+			}
+		}
+	}
+	r.Extra["stores_into_singleton_types"] = nShared
 
 	// ---------- WRITE-ROOTS ----------
 	instTypes := map[string][]string{
@@ -300,6 +360,24 @@ func checkC14(P *Program, r *Result, tier string) {
 
 	// ---------- POOL-OWNERSHIP ----------
 	ownerGuardRules(P, r, "POOL-OWNERSHIP")
+	// a buffer given back to the shared pool while its instance still uses it is the other way one instance's bytes
+	// reach another: the recycling discipline of C09 (who may free, forget after free) belongs here too
+	{
+		tmp := newResult(r.Prop)
+		checkC09(P, tmp, tier)
+		r.Fatal = append(r.Fatal, tmp.Fatal...)
+		n := 0
+		for _, o := range tmp.Obls {
+			if strings.HasSuffix(o.Rule, "/WHO-FREES") || strings.HasSuffix(o.Rule, "/FREE-THEN-FORGET") {
+				o.Rule = r.Prop + "/POOL-OWNERSHIP"
+				r.Obls = append(r.Obls, o)
+				n++
+			}
+		}
+		if n < 10 {
+			r.fatal("expected the recycling obligations of C09, found %d", n)
+		}
+	}
 	// values handed to the caller do not alias pooled buffers of the instance that produced them
 	copyRules(P, r, "POOL-OWNERSHIP", []*ssa.Function{P.Func(relTT, "ReadString2BLen"), P.Method(relThrift, "BinaryProtocol", "ReadString"), P.Method(relThrift, "BinaryProtocol", "ReadBinary"), P.Method(relThrift, "BufferReader", "ReadString"), P.Method(relThrift, "BufferReader", "ReadBinary")})
 
